@@ -440,5 +440,14 @@ def main():
     return 1 if f.errors else 0
 
 
+def steps(facts, _write_if_changed, _GEN, _REPO):
+    """Hook for tools/translate.py (run by every check and by `run.py --setup`): step "utils" regenerates
+    Gen/GenConstsUtils.v, so that a fresh checkout has every generated file the Coq project lists."""
+    def run():
+        if main() != 0:
+            raise rustlex.TranslateError("translate_utils reported errors (see gen_facts_utils.json)")
+    return [("utils", run)]
+
+
 if __name__ == "__main__":
     sys.exit(main())
